@@ -12,14 +12,15 @@
 From Regal Require Export Model.Diff.
 Open Scope nat_scope.
 
-(* byte offset of the start of line l (0-based); clamps to the end of the document *)
+(* byte offset of the start of line l (0-based); lines end at '\n', '\r\n' or a lone '\r'
+   ([eol_here]); clamps to the end of the document *)
 Fixpoint line_start (s : str) (l : nat) {struct s} : nat :=
   match l with
   | O => O
   | S l' =>
       match s with
       | [] => O
-      | c :: s' => S (line_start s' (if N.eqb c NL then l' else l))
+      | c :: s' => S (line_start s' (if eol_here c s' then l' else l))
       end
   end.
 
